@@ -139,8 +139,9 @@ class Engine:
             exp = did if did is not None else self.fl.auto_id(it[0], n.data)
             if n.data_id != exp:
                 self.build_problems.append(("data_id", repr(n.data), repr(n.data_id), repr(exp)))
-            if self.typed and n.kind != (o.get("kind") or "child"):
-                self.build_problems.append(("kind", repr(n.data), n.kind, o.get("kind") or "child"))
+            want_kind = "child" if o.get("kind") is None else o["kind"]
+            if self.typed and n.kind != want_kind:
+                self.build_problems.append(("kind", repr(n.data), n.kind, want_kind))
 
     def _pair_tree2(self):
         w = walk(self.tree2)
@@ -392,7 +393,7 @@ class Engine:
             kw["kind"] = kind
         call = lambda: rparent.add(rsrc, before=rb, **kw)  # noqa: E731
         if deep and src_tree == 0 and mt.is_inside(parent, src):
-            return Plan("unspecified", route + ":deep-copy-into-own-branch")
+            route += ":into-own-branch"  # the copy shows the branch as it was before the call
         res = resolve_before(parent, mb)
         if res[0] == "unspecified":
             return Plan("unspecified", route + ":" + res[1], call=call)
@@ -423,7 +424,7 @@ class Engine:
         mb, rb = self.decode_before(target, before)
         call = lambda: rsrc.copy_to(rtarget, add_self=add_self, before=rb, deep=deep)  # noqa: E731
         if deep and mt.is_inside(target, src):
-            return Plan("unspecified", route + ":deep-copy-into-own-branch")
+            route += ":into-own-branch"  # the copy shows the branch as it was before the call
         if add_self:
             res = resolve_before(target, mb)
             if res[0] == "unspecified":
@@ -442,19 +443,16 @@ class Engine:
             return Plan("valid", route, call=call, apply=apply)
         if not src.children:
             return Plan("refuse", route + ":no-children", call=call, exc=E_VALUE)
-        if target is src:
-            return Plan("unspecified", route + ":children-onto-own-parent")
         if any(mt.has_sibling_id(target, c.data_id) for c in src.children):
-            # some copies may already have been appended before the refusal: state-unchanged is C13's business
+            # (target is src: the children collide with themselves)
             return Plan("refuse", route + ":collision", call=call, exc=E_UNIQUE)
 
         def apply2():
-            first = None
-            for c in list(src.children):
-                n = mt.copy_branch(c, bool(deep), kind_override=self._top_copy_kind(c))
+            # all copies are taken before the first one is inserted (target may be inside a copied branch)
+            copies = [mt.copy_branch(c, bool(deep), kind_override=self._top_copy_kind(c)) for c in list(src.children)]
+            for n in copies:
                 mt.insert(target, n, None)
-                first = first or n
-            return first
+            return copies[0]
 
         return Plan("valid", route, call=call, apply=apply2)
 
@@ -502,17 +500,26 @@ class Engine:
 
         return Plan("valid", route, call=call, apply=apply2)
 
-    def _op_tree2_copy_to(self, target_ref, deep):
+    def _op_own_copy_to(self, target_ref, deep):
+        """<the tree itself>.copy_to(<target in the same tree>, deep=...)"""
+        return self._op_tree2_copy_to(target_ref, deep, own=True)
+
+    def _op_add_own_tree(self, parent_ref, before, deep):
+        """<parent>.add(<the tree the parent lives in>, ...)"""
+        return self._op_add_tree(parent_ref, before, deep, own=True)
+
+    def _op_tree2_copy_to(self, target_ref, deep, own=False):
         """<second tree>.copy_to(<target in tree 1>, deep=...)"""
-        route = "tree2.copy_to" + ("" if deep is None or deep else ":shallow")
+        route = ("own.copy_to" if own else "tree2.copy_to") + ("" if deep is None or deep else ":shallow")
         mt = self.model
         target = self.parent_of(target_ref)
         rtarget = self.real(target)
         kw = {}
         if deep is not None:
             kw["deep"] = deep
-        call = lambda: self.tree2.copy_to(rtarget, **kw)  # noqa: E731
-        tops = list(self.model2.root.children)
+        srctree = self.tree if own else self.tree2
+        call = lambda: srctree.copy_to(rtarget, **kw)  # noqa: E731
+        tops = list((self.model if own else self.model2).root.children)
         if not tops:
             return Plan("unspecified", route + ":empty-source", call=call)
         if any(mt.has_sibling_id(target, t.data_id) for t in tops):
@@ -520,8 +527,8 @@ class Engine:
         dp = True if deep is None else bool(deep)
 
         def apply():
-            for t in tops:
-                n = mt.copy_branch(t, dp, kind_override=self._top_copy_kind(t))
+            copies = [mt.copy_branch(t, dp, kind_override=self._top_copy_kind(t)) for t in tops]
+            for n in copies:
                 mt.insert(target, n, None)
             return None
 
@@ -529,8 +536,8 @@ class Engine:
         p.note = "no-return-check"
         return p
 
-    def _op_add_tree(self, parent_ref, before, deep):
-        route = "add_tree"
+    def _op_add_tree(self, parent_ref, before, deep, own=False):
+        route = "add_own_tree" if own else "add_tree"
         mt = self.model
         parent = self.parent_of(parent_ref)
         rparent = self.real(parent)
@@ -538,8 +545,9 @@ class Engine:
         kw = {}
         if deep is not None:
             kw["deep"] = deep
-        call = lambda: rparent.add(self.tree2, before=rb, **kw)  # noqa: E731
-        tops = list(self.model2.root.children)
+        srctree = self.tree if own else self.tree2
+        call = lambda: rparent.add(srctree, before=rb, **kw)  # noqa: E731
+        tops = list((self.model if own else self.model2).root.children)
         if not tops:
             return Plan("unspecified", route + ":empty-source", call=call)
         res = resolve_before(parent, mb)
@@ -554,8 +562,8 @@ class Engine:
 
         def apply():
             pos = res[1]
-            for i, t in enumerate(tops):
-                n = mt.copy_branch(t, dp, kind_override=self._top_copy_kind(t))
+            copies = [mt.copy_branch(t, dp, kind_override=self._top_copy_kind(t)) for t in tops]
+            for i, n in enumerate(copies):
                 mt.insert(parent, n, None if pos is None else pos + i)
             return None
 
